@@ -663,7 +663,7 @@ func c21RunMix(builder int, ops []c21MixOp, seq []int) (sig, detail string, fina
 
 func TestVerifC21(t *testing.T) {
 	r := ev.Start(t, "C21", "exploration")
-	r.Rule("(1) keys: all tuples of length<=3 over a part alphabet (quick 46 / thorough 71 typed parts: empty, single bytes at the RLP boundaries, strings, byte strings of length 55/56/255/256 (thorough + 2/54/57/254/257, and 65535/65536 in tuples of length<=2), RLP framings of other parts, a 21-byte address, ints/bools/big ints through ToBytes) under AppendKeys and the Hash / Hash+raw-prefix / Hash+type-byte / PrefixedHash / RLP builders with 3 prefixes; SplitKeys on every truncation of the framed keys of all tuples of length<=2 and on every byte string of length<=2 (thorough: + 3-byte strings with a header first byte). (2) containers on a real trie store, every operation sequence up to depth d against a Go slice/map: ArrayDB {Put x,Put y,Pop,Set(0..2,·)} (8 ops, d=5 quick / 6 thorough, hash builder; d-1 for the rlp and prefixed-hash builders), DictDB depth 1 (6 ops, d=6/7) and depth 2 with three key pairs whose raw concatenations coincide (12 ops incl. Set through GetDB, d=4/5), containers sharing one key prefix (ArrayDB+DictDB(1)+DictDB(2)+2 VarDB, 11 ops, d=4/5) against a tuple-keyed flat model; long arrays of 0..300 (thorough 70000) elements. distinct_nontrivial = distinct byte-form tuples, distinct SplitKeys inputs, distinct operation sequences")
+	r.Rule("(1) keys: all tuples of length<=3 over a part alphabet (quick 46 / thorough 71 typed parts: empty, single bytes at the RLP boundaries, strings, byte strings of length 55/56/255/256 (thorough + 2/54/57/254/257, and 65535/65536 in tuples of length<=2), RLP framings of other parts, a 21-byte address, ints/bools/big ints through ToBytes) under AppendKeys and the Hash / Hash+raw-prefix / Hash+type-byte / PrefixedHash / RLP builders with 3 prefixes; SplitKeys on every truncation of the framed keys of all tuples of length<=2 and on every byte string of length<=2 (thorough: + 3-byte strings with a header first byte). (1b) sibling builders: for every builder kind (hash, hash+raw prefix, prefixed hash, rlp, raw), every parent of 0..2 parts over 6 (thorough 10) parts, built one-shot and by successive Append, every ordered pair (and triple over a subset) of children from 10 (thorough 14) child part lists incl. two multi-part Appends is derived from the ONE parent builder and kept alive together with the Build() results, then two grandchildren per child; every key must equal the key of the same path built one-shot on fresh slices, before and after the later derivations. (2) containers on a real trie store, every operation sequence up to depth d against a Go slice/map: ArrayDB {Put x,Put y,Pop,Set(0..2,·)} (8 ops, d=5 quick / 6 thorough, hash builder; d-1 for the rlp and prefixed-hash builders), DictDB depth 1 (6 ops, d=6/7) and depth 2 with three key pairs whose raw concatenations coincide (12 ops incl. Set through GetDB, d=4/5), containers sharing one key prefix (ArrayDB+DictDB(1)+DictDB(2)+2 VarDB, 11 ops, d=4/5) against a tuple-keyed flat model; (2b) 9 container handles derived from one parent builder (3-level DictDB with two kept sub-dictionaries and two kept sub-sub-dictionaries, two ArrayDB, two VarDB; 3 root names of different length x 2 opening orders x 3 builder kinds) held at once, every interleaving of 13 operations up to depth 3 (thorough 4), observed through the held handles, through fresh GetDB chains and through fresh one-shot builders; long arrays of 0..300 (thorough 70000) elements. distinct_nontrivial = distinct byte-form tuples, distinct SplitKeys inputs, distinct operation sequences")
 	r.Assume("typed parts with the same byte form (true / int 1 / byte 01) share a key by design and are compared at the byte-form level",
 		"RawBuilder (plain concatenation) is outside the property; raw prefixes of different lengths are not compared with each other",
 		"hash builders: pre-images are compared for injectivity; equality of SHA3-256 outputs of different pre-images is additionally checked but cannot be excluded by enumeration",
@@ -712,6 +712,32 @@ func TestVerifC21(t *testing.T) {
 			fmt.Sscanf(c.Note, "builder=%d", &b)
 			if sig, detail, _ := c21RunDict(b, depth, c21DictOps(depth), c.Ops); sig != "" {
 				r.Violation(sig, detail, c)
+			}
+			r.Eval(1)
+		case "siblings":
+			var sc c21SibCase
+			ev.ReplayCase(&sc)
+			all := map[string]c21Part{}
+			for _, q := range c21Parts(true) {
+				all[q.name] = q
+			}
+			get := func(ns []string) []c21Part {
+				var out []c21Part
+				for _, n := range ns {
+					out = append(out, all[n])
+				}
+				return out
+			}
+			var kids [][]c21Part
+			for _, k := range sc.Kids {
+				kids = append(kids, get(k))
+			}
+			e.siblings(sc.Kind, sc.Style, get(sc.Parent), kids, [][]c21Part{{all["int(0)"]}, {all["str-b"]}})
+		case "handles":
+			b, ni, order := 0, 0, 0
+			fmt.Sscanf(c.Note, "builder=%d name=%d order=%d", &b, &ni, &order)
+			if sig, detail, _ := c21RunHandles(b, ni, order, c21HOps(), c.Ops); sig != "" {
+				r.Violation(sig+":"+c21BuilderNames[b], detail, c)
 			}
 			r.Eval(1)
 		case "mix":
@@ -853,6 +879,70 @@ func TestVerifC21(t *testing.T) {
 	r.Set("SplitKeys_accepted", e.splitOK)
 	r.Set("SplitKeys_rejected", e.splitErr)
 
+	// ---- (1b) sibling builders derived from one parent, all kept alive ----
+	{
+		pick := func(names ...string) []c21Part {
+			var out []c21Part
+			for _, n := range names {
+				p, ok := byName[n]
+				if !ok {
+					t.Fatalf("unknown part %s", n)
+				}
+				out = append(out, p)
+			}
+			return out
+		}
+		parentAlpha := pick("int(1)", "str-a", "empty", "byte-80", "a*55", "address")
+		kidAlpha := pick("int(0)", "int(1)", "int(256)", "str-a", "str-ab", "empty", "true", "address")
+		if r.Thorough() {
+			parentAlpha = pick("int(1)", "int(-1)", "str-a", "str-ab", "empty", "byte-80", "a*55", "a*56", "address", "big(2^64)")
+			kidAlpha = pick("int(0)", "int(1)", "int(256)", "int(-129)", "str-a", "str-ab", "empty", "byte-80", "true", "address", "a*55", "hexint(-256)")
+		}
+		var kidLists [][]c21Part
+		for _, k := range kidAlpha {
+			kidLists = append(kidLists, []c21Part{k})
+		}
+		one, two, three := byName["int(1)"], byName["int(-1)"], byName["int(128)"]
+		kidLists = append(kidLists, []c21Part{one, two}, []c21Part{one, three}) // multi-part Append, as parent.Append(1,2) / (1,3)
+		grand := [][]c21Part{{byName["int(0)"]}, {byName["str-b"]}}
+		var parents [][]c21Part
+		parents = append(parents, nil)
+		for _, a := range parentAlpha {
+			parents = append(parents, []c21Part{a})
+			for _, b := range parentAlpha {
+				parents = append(parents, []c21Part{a, b})
+			}
+		}
+		nSib := 0
+		tripleN := r.Pick(5, len(kidLists))
+		for kind := range c21SibKinds {
+			for style := 0; style < 2 && !expired(); style++ {
+				for _, parent := range parents {
+					kind, style, parent := kind, style, parent
+					if style == 1 && len(parent) == 0 {
+						continue
+					}
+					for i := range kidLists {
+						for j := range kidLists {
+							kids := [][]c21Part{kidLists[i], kidLists[j]}
+							nSib++
+							add(func() { e.siblings(kind, style, parent, kids, grand) })
+							if i < tripleN && j < tripleN {
+								for k := 0; k < tripleN; k++ {
+									kids3 := [][]c21Part{kidLists[i], kidLists[j], kidLists[k]}
+									nSib++
+									add(func() { e.siblings(kind, style, parent, kids3, grand) })
+								}
+							}
+						}
+					}
+				}
+			}
+		}
+		flush()
+		r.Set("sibling_builder_cases", nSib)
+	}
+
 	// ---- (2) containers ----
 	var nArr, nD1, nD2, nMix int64
 	outcomes := map[string]bool{}
@@ -953,6 +1043,42 @@ func TestVerifC21(t *testing.T) {
 	if r.Expired() {
 		exhaustive = false
 	}
+	// ---- (2b) handles derived from one parent and held at once ----
+	var nHandles int64
+	{
+		hops := c21HOps()
+		d := r.Pick(3, 4)
+		for kind := 0; kind < 3 && !expired(); kind++ {
+			for ni := range c21RootNames {
+				for order := 0; order < 2; order++ {
+					kind, ni, order := kind, ni, order
+					opseq.Sequences(len(hops), 0, d, func(sq []int) bool {
+						seq := seqCopy(sq)
+						nHandles++
+						add(func() {
+							r.Eval(1)
+							r.Nontrivial(fmt.Sprintf("handles|%d|%d|%d|%v", kind, ni, order, seq))
+							sig, detail, final := c21RunHandles(kind, ni, order, hops, seq)
+							if sig != "" {
+								var names []string
+								for _, i := range seq {
+									names = append(names, hops[i].name)
+								}
+								r.Violation(sig+":"+c21BuilderNames[kind], fmt.Sprintf("root=%q handles opened in order %d, ops=%v %s", c21RootNames[ni], order, names, detail),
+									c21TupleCase{Phase: "handles", Ops: seq, Note: fmt.Sprintf("builder=%d name=%d order=%d", kind, ni, order)})
+							}
+							note("handles" + final)
+						})
+						return !r.Expired()
+					})
+				}
+			}
+		}
+		flush()
+		if r.Expired() {
+			exhaustive = false
+		}
+	}
 	// long arrays: index keys cross the 1-, 2- and 3-byte boundaries
 	for b := 0; b < 3; b++ {
 		n := r.Pick(300, 70000)
@@ -987,6 +1113,7 @@ func TestVerifC21(t *testing.T) {
 	r.Set("dict1_sequences", nD1)
 	r.Set("dict2_sequences", nD2)
 	r.Set("shared_prefix_sequences", nMix)
+	r.Set("held_handle_sequences", nHandles)
 	r.Set("distinct_final_container_states", len(outcomes))
 	r.Sanity(e.splitOK > 1000 && e.splitErr > 1000, "SplitKeys inputs must be both accepted and rejected (%d/%d)", e.splitOK, e.splitErr)
 	r.Sanity(e.aliases > 0, "no typed alias (same byte form) in the tuple space")
@@ -997,6 +1124,358 @@ func TestVerifC21(t *testing.T) {
 	r.Sample(map[string]interface{}{"array_ops": c21ArrNames([]int{0, 1, 5, 2, 2, 2}), "end_state": "[]"})
 	r.Sample(map[string]interface{}{"shared_prefix_ops": []string{mixOps[6].name, mixOps[8].name, mixOps[1].name}, "meaning": "a VarDB at the array's own key sets its size; Pop then removes element 1 and leaves var0 = element 0"})
 	r.Finish(exhaustive)
+}
+
+// ===========================================================================
+// Part 1b: sibling key builders derived from ONE parent and kept alive
+// ===========================================================================
+
+var c21SibKinds = []string{"hash", "hash-rawprefix", "prefixedhash", "rlp", "raw"}
+
+func c21OneShot(kind int, vals []interface{}) KeyBuilder {
+	switch kind {
+	case 0:
+		return ToKey(HashBuilder, vals...)
+	case 1:
+		return NewHashKey([]byte{0x00}, vals...)
+	case 2:
+		return ToKey(PrefixedHashBuilder, append([]interface{}{[]byte{0x70}}, vals...)...)
+	case 3:
+		return ToKey(RLPBuilder, vals...)
+	default:
+		return ToKey(RawBuilder, vals...)
+	}
+}
+
+func c21Vals(lists ...[]c21Part) []interface{} {
+	var out []interface{}
+	for _, l := range lists {
+		for _, p := range l {
+			out = append(out, p.v)
+		}
+	}
+	return out
+}
+
+func c21Names(lists ...[]c21Part) []string {
+	var out []string
+	for _, l := range lists {
+		var n []string
+		for _, p := range l {
+			n = append(n, p.name)
+		}
+		out = append(out, "("+strings.Join(n, ",")+")")
+	}
+	return out
+}
+
+type c21SibCase struct {
+	Phase  string     `json:"phase"`
+	Kind   int        `json:"kind"`
+	Style  int        `json:"style"`
+	Parent []string   `json:"parent"`
+	Kids   [][]string `json:"kids"`
+}
+
+// siblings derives the children parent.Append(kid_i...) in the given order,
+// keeps every builder and every Build() result alive, derives grandchildren
+// from every child, and compares every key with the key of the same path built
+// one-shot on fresh slices before anything was derived.
+func (e *c21Env) siblings(kind, style int, parent []c21Part, kids [][]c21Part, grand [][]c21Part) {
+	r := e.r
+	r.Eval(1)
+	c := c21SibCase{Phase: "siblings", Kind: kind, Style: style}
+	for _, p := range parent {
+		c.Parent = append(c.Parent, p.name)
+	}
+	for _, k := range kids {
+		var n []string
+		for _, p := range k {
+			n = append(n, p.name)
+		}
+		c.Kids = append(c.Kids, n)
+	}
+	r.Nontrivial(fmt.Sprintf("sib|%d|%d|%v|%v", kind, style, c.Parent, c.Kids))
+	kn := c21SibKinds[kind]
+	fail := func(sig, format string, a ...interface{}) {
+		r.Violation(sig+":"+kn, fmt.Sprintf("builder=%s parent=%v (built %s) children=%v: ", kn, c.Parent, []string{"one-shot", "by successive Append"}[style], c21Names(kids...))+fmt.Sprintf(format, a...), c)
+	}
+	if p := ev.Catch(func() {
+		dup := func(b []byte) []byte { return append([]byte{}, b...) }
+		// expected keys, each from a fresh one-shot builder
+		expP := dup(c21OneShot(kind, c21Vals(parent)).Build())
+		exp := make([][]byte, len(kids))
+		expG := make([][][]byte, len(kids))
+		for i, k := range kids {
+			exp[i] = dup(c21OneShot(kind, c21Vals(parent, k)).Build())
+			for _, g := range grand {
+				expG[i] = append(expG[i], dup(c21OneShot(kind, c21Vals(parent, k, g)).Build()))
+			}
+		}
+		// the parent
+		var P KeyBuilder
+		if style == 0 {
+			P = c21OneShot(kind, c21Vals(parent))
+		} else {
+			P = c21OneShot(kind, nil)
+			for _, p := range parent {
+				P = P.Append(p.v)
+			}
+		}
+		// children, all kept; each key is also built right away and the result held
+		ch := make([]KeyBuilder, len(kids))
+		held := make([][]byte, len(kids))
+		for i, k := range kids {
+			ch[i] = P.Append(c21Vals(k)...)
+			held[i] = ch[i].Build()
+			if !bytes.Equal(held[i], exp[i]) {
+				fail("derived-key-differs-from-one-shot", "child %d %s: key %s want %s", i, c21Names(k), c21Hex(held[i]), c21Hex(exp[i]))
+			}
+		}
+		check := func(when string) {
+			for i := range kids {
+				if got := ch[i].Build(); !bytes.Equal(got, exp[i]) {
+					fail("sibling-builders-interfere", "%s: child %d %s now builds %s, want %s", when, i, c21Names(kids[i]), c21Hex(got), c21Hex(exp[i]))
+				}
+				if !bytes.Equal(held[i], exp[i]) {
+					fail("held-key-mutated", "%s: the key bytes returned earlier for child %d %s are now %s, want %s", when, i, c21Names(kids[i]), c21Hex(held[i]), c21Hex(exp[i]))
+				}
+			}
+			if got := P.Build(); !bytes.Equal(got, expP) {
+				fail("parent-builder-mutated", "%s: parent builds %s, want %s", when, c21Hex(got), c21Hex(expP))
+			}
+		}
+		check("after deriving all children")
+		// grandchildren from every child, all kept
+		gc := make([][]KeyBuilder, len(kids))
+		for i := range kids {
+			for _, g := range grand {
+				gc[i] = append(gc[i], ch[i].Append(c21Vals(g)...))
+			}
+		}
+		for i := range kids {
+			for j := range grand {
+				if got := gc[i][j].Build(); !bytes.Equal(got, expG[i][j]) {
+					fail("sibling-builders-interfere", "grandchild %d.%d %s%s builds %s, want %s", i, j, c21Names(kids[i]), c21Names(grand[j]), c21Hex(got), c21Hex(expG[i][j]))
+				}
+			}
+		}
+		check("after deriving grandchildren")
+		if kind == 3 {
+			for i, k := range kids {
+				want := c21TupleKey(c21Forms(parent, k))
+				if sp, err := SplitKeys(ch[i].Build()); err != nil || c21TupleKey(sp) != want {
+					fail("derived-rlp-key-does-not-split-to-its-parts", "child %d: split=%x err=%v", i, sp, err)
+				}
+			}
+		}
+	}); p != "" {
+		fail("key-builder-panics", "%s", p)
+	}
+}
+
+func c21Forms(lists ...[]c21Part) [][]byte {
+	var out [][]byte
+	for _, l := range lists {
+		for _, p := range l {
+			out = append(out, p.form)
+		}
+	}
+	return out
+}
+
+// ===========================================================================
+// Part 2b: several container handles derived from one parent, held at once
+// ===========================================================================
+
+var c21RootNames = []string{"d", "dict", "container"}
+
+type c21Handles struct {
+	D, s1, s2, s11, s12 *DictDB
+	a1, a2              *ArrayDB
+	v1, v2              *VarDB
+}
+
+func c21Root(kind int, name string) KeyBuilder {
+	switch kind {
+	case 0:
+		return ToKey(HashBuilder, byte(0x00), name)
+	case 1:
+		return ToKey(RLPBuilder, []byte{0x10}, name)
+	default:
+		return ToKey(PrefixedHashBuilder, []byte{0x70}, name)
+	}
+}
+
+func c21Open(st *c21Store, kind int, name string, order int) *c21Handles {
+	K := c21Root(kind, name)
+	h := &c21Handles{}
+	var KD, KA, KV KeyBuilder
+	if order == 0 {
+		KD, KA, KV = K.Append("d"), K.Append("a"), K.Append("v")
+		h.D = NewDictDB(st, 3, KD)
+		h.s1, h.s2 = h.D.GetDB(1), h.D.GetDB(2)
+		h.s11, h.s12 = h.s1.GetDB(1), h.s1.GetDB(2)
+		h.a1, h.a2 = NewArrayDB(st, KA.Append(1)), NewArrayDB(st, KA.Append(2))
+		h.v1, h.v2 = NewVarDB(st, KV.Append(1)), NewVarDB(st, KV.Append(2))
+	} else {
+		KV, KA, KD = K.Append("v"), K.Append("a"), K.Append("d")
+		h.v2, h.v1 = NewVarDB(st, KV.Append(2)), NewVarDB(st, KV.Append(1))
+		h.a2, h.a1 = NewArrayDB(st, KA.Append(2)), NewArrayDB(st, KA.Append(1))
+		h.D = NewDictDB(st, 3, KD)
+		h.s2, h.s1 = h.D.GetDB(2), h.D.GetDB(1)
+		h.s12, h.s11 = h.s1.GetDB(2), h.s1.GetDB(1)
+	}
+	return h
+}
+
+// fresh one-shot builder of the same path (never shares a slice with anything)
+func c21Path(kind int, name string, parts ...interface{}) KeyBuilder {
+	switch kind {
+	case 0:
+		return ToKey(HashBuilder, append([]interface{}{byte(0x00), name}, parts...)...)
+	case 1:
+		return ToKey(RLPBuilder, append([]interface{}{[]byte{0x10}, name}, parts...)...)
+	default:
+		return ToKey(PrefixedHashBuilder, append([]interface{}{[]byte{0x70}, name}, parts...)...)
+	}
+}
+
+type c21HModel struct {
+	dict map[[3]int]string
+	arr  [3][]string
+	vr   [3]*string
+}
+
+type c21HOp struct {
+	name string
+	impl func(h *c21Handles) string
+	mod  func(m *c21HModel) string
+}
+
+func c21HOps() []c21HOp {
+	errs := func(err error) string {
+		if err != nil {
+			return "err:" + err.Error()
+		}
+		return "ok"
+	}
+	set := func(i, j, k int, v string) func(m *c21HModel) string {
+		return func(m *c21HModel) string { m.dict[[3]int{i, j, k}] = v; return "ok" }
+	}
+	del := func(i, j, k int) func(m *c21HModel) string {
+		return func(m *c21HModel) string { delete(m.dict, [3]int{i, j, k}); return "ok" }
+	}
+	put := func(n int, v string) func(m *c21HModel) string {
+		return func(m *c21HModel) string { m.arr[n] = append(m.arr[n], v); return "ok" }
+	}
+	str := func(s string) *string { return &s }
+	return []c21HOp{
+		{"d[1][1].Set(1,x)", func(h *c21Handles) string { return errs(h.s11.Set(1, "x")) }, set(1, 1, 1, "x")},
+		{"d[1][2].Set(1,y)", func(h *c21Handles) string { return errs(h.s12.Set(1, "y")) }, set(1, 2, 1, "y")},
+		{"d[2].Set(1,1,z)", func(h *c21Handles) string { return errs(h.s2.Set(1, 1, "z")) }, set(2, 1, 1, "z")},
+		{"d[1].Set(2,1,w)", func(h *c21Handles) string { return errs(h.s1.Set(2, 1, "w")) }, set(1, 2, 1, "w")},
+		{"d.Set(2,2,1,u)", func(h *c21Handles) string { return errs(h.D.Set(2, 2, 1, "u")) }, set(2, 2, 1, "u")},
+		{"d[1][1].Delete(1)", func(h *c21Handles) string { h.s11.Delete(1); return "ok" }, del(1, 1, 1)},
+		{"d[2].Delete(1,1)", func(h *c21Handles) string { h.s2.Delete(1, 1); return "ok" }, del(2, 1, 1)},
+		{"a[1].Put(p)", func(h *c21Handles) string { return errs(h.a1.Put("p")) }, put(1, "p")},
+		{"a[2].Put(q)", func(h *c21Handles) string { return errs(h.a2.Put("q")) }, put(2, "q")},
+		{"a[1].Pop", func(h *c21Handles) string { return c21Val(h.a1.Pop()) }, func(m *c21HModel) string {
+			if len(m.arr[1]) == 0 {
+				return "<nil>"
+			}
+			v := m.arr[1][len(m.arr[1])-1]
+			m.arr[1] = m.arr[1][:len(m.arr[1])-1]
+			return "=" + v
+		}},
+		{"v[1].Set(m)", func(h *c21Handles) string { return errs(h.v1.Set("m")) }, func(m *c21HModel) string { m.vr[1] = str("m"); return "ok" }},
+		{"v[2].Set(n)", func(h *c21Handles) string { return errs(h.v2.Set("n")) }, func(m *c21HModel) string { m.vr[2] = str("n"); return "ok" }},
+		{"v[1].Delete", func(h *c21Handles) string { h.v1.Delete(); return "ok" }, func(m *c21HModel) string { m.vr[1] = nil; return "ok" }},
+	}
+}
+
+func c21RunHandles(kind, nameIdx, order int, ops []c21HOp, seq []int) (sig, detail string, final string) {
+	st := c21NewStore()
+	name := c21RootNames[nameIdx]
+	h := c21Open(st, kind, name, order)
+	m := &c21HModel{dict: map[[3]int]string{}}
+	state := func() string {
+		var ks []string
+		for k, v := range m.dict {
+			ks = append(ks, fmt.Sprint(k, v))
+		}
+		sort.Strings(ks)
+		return fmt.Sprint(ks, m.arr, m.vr[1] != nil, m.vr[2] != nil)
+	}
+	observe := func(where string) (string, string) {
+		for i := 1; i <= 2; i++ {
+			for j := 1; j <= 2; j++ {
+				want := "<nil>"
+				if v, ok := m.dict[[3]int{i, j, 1}]; ok {
+					want = "=" + v
+				}
+				views := map[string]Value{
+					"root.Get":              h.D.Get(i, j, 1),
+					"fresh one-shot DictDB": NewDictDB(st, 3, c21Path(kind, name, "d")).Get(i, j, 1),
+					"fresh GetDB chain":     h.D.GetDB(i).GetDB(j).Get(1),
+				}
+				if i == 1 {
+					views["held d[1]"] = h.s1.Get(j, 1)
+					if j == 1 {
+						views["held d[1][1]"] = h.s11.Get(1)
+					} else {
+						views["held d[1][2]"] = h.s12.Get(1)
+					}
+				} else {
+					views["held d[2]"] = h.s2.Get(j, 1)
+				}
+				for vn, v := range views {
+					if got := c21Val(v); got != want {
+						return "held-handles:dict-entry", fmt.Sprintf("%s: d[%d][%d][1] through %s = %s want %s", where, i, j, vn, got, want)
+					}
+				}
+			}
+		}
+		for n, a := range map[int]*ArrayDB{1: h.a1, 2: h.a2} {
+			fresh := NewArrayDB(st, c21Path(kind, name, "a", n))
+			if a.Size() != len(m.arr[n]) || fresh.Size() != len(m.arr[n]) {
+				return "held-handles:array-size", fmt.Sprintf("%s: a[%d].Size held=%d fresh=%d want %d", where, n, a.Size(), fresh.Size(), len(m.arr[n]))
+			}
+			for i := 0; i <= len(m.arr[n]); i++ {
+				want := "<nil>"
+				if i < len(m.arr[n]) {
+					want = "=" + m.arr[n][i]
+				}
+				if g1, g2 := c21Val(a.Get(i)), c21Val(fresh.Get(i)); g1 != want || g2 != want {
+					return "held-handles:array-element", fmt.Sprintf("%s: a[%d].Get(%d) held=%s fresh=%s want %s", where, n, i, g1, g2, want)
+				}
+			}
+		}
+		for n, v := range map[int]*VarDB{1: h.v1, 2: h.v2} {
+			want := "<nil>"
+			if m.vr[n] != nil {
+				want = "=" + *m.vr[n]
+			}
+			fresh := NewVarDB(st, c21Path(kind, name, "v", n))
+			if g1, g2 := c21Val(v), c21Val(fresh); g1 != want || g2 != want {
+				return "held-handles:var", fmt.Sprintf("%s: v[%d] held=%s fresh=%s want %s", where, n, g1, g2, want)
+			}
+		}
+		return "", ""
+	}
+	for step, oi := range seq {
+		op := ops[oi]
+		where := fmt.Sprintf("step %d %s", step, op.name)
+		want := op.mod(m)
+		got := op.impl(h)
+		if got != want {
+			return "held-handles:op-result", fmt.Sprintf("%s: got %s want %s", where, got, want), state()
+		}
+		if sig, detail := observe(where); sig != "" {
+			return sig, detail, state()
+		}
+	}
+	return "", "", state()
 }
 
 func c21ArrNames(seq []int) []string {
